@@ -376,7 +376,7 @@ class Rig:
                 ctx.count('delivery.sent_as_expected')
                 self.book(k, recs[0], ev['t'])
             elif not exp and n == 0:
-                ctx.count(f'delivery.suppressed.{reason or "filter"}')
+                ctx.count(f'delivery.suppressed.{"filter" if reason in (None, "near_expiry") else reason}')
             elif exp and n == 0:
                 self.witness(f'deliver.missing.{self.sa}', 'live subscription with matching filter was not sent the report',
                              sub=k, action=ev['action'], sub_info=self.sub_info(k))
@@ -478,7 +478,7 @@ class Rig:
         if 'to_expiry_of' in st and self.subs:
             sub = self.subs[st['to_expiry_of'] % len(self.subs)]
             s = self.models[sub['mgr']].subs.get(sub['k'])
-            if s is not None and s.expires_at + st['delta'] - self.now > 0.001:
+            if s is not None and 0.001 < s.expires_at + st['delta'] - self.now < 100:
                 dt = s.expires_at + st['delta'] - self.now
         if not self.vc.advance(dt):
             raise RuntimeError('virtual clock: a housekeeping thread did not come back')
